@@ -1,6 +1,11 @@
 #!/bin/bash
 # usage: try_seed.sh <seed name> <tier> <check id>...   applies the seeded patch to /repo, runs the checks, reverts.
 set -u
+# one user of /repo at a time (tools/locked.sh takes the same lock)
+if [ -z "${REPO_LOCKED:-}" ]; then
+  export REPO_LOCKED=1
+  exec flock /dev/shm/repo.lock "$0" "$@"
+fi
 name="$1"; tier="$2"; shift; shift
 cd /repo || exit 1
 [ -z "$(git status --porcelain)" ] || { echo "/repo not clean"; exit 1; }
